@@ -183,6 +183,11 @@ class Interp:
                 return SV('tuple', tuple(self.fresh(t, base) for t in ty[1]))
             if k == 'mobj':
                 return self.fresh_mobj(ty[1], base, ty[2] if len(ty) > 2 else None)
+            if k == 'smap':
+                # a dict from names to definition objects of the given class(es), e.g. XtcePacketDefinition.containers
+                has = z3.Array(p.fresh_name(base + '_has'), z3.StringSort(), z3.BoolSort())
+                val = z3.Array(p.fresh_name(base + '_val'), z3.StringSort(), TY.Obj)
+                return SV('smap', {'has': has, 'val': val}, extra={'elem': ('rec', ty[1])})
             if k == 'odict':
                 from .objects import fresh_odict
                 od = fresh_odict(self, base)
@@ -468,6 +473,15 @@ class Interp:
 
     def eval_message(self, node, frame):
         """Evaluate a message expression only for its possible exceptions (KeyError on packet[...], ...)."""
+        for sub in ast.walk(node):
+            if isinstance(sub, ast.FormattedValue) and isinstance(sub.value, (ast.Attribute, ast.Subscript)) and all(
+                    isinstance(n, (ast.Name, ast.Attribute, ast.Subscript, ast.Constant, ast.Load)) for n in ast.walk(sub.value)):
+                # a pure attribute / subscript chain inside an f-string: evaluated in full (properties may raise)
+                try:
+                    self.eval(sub.value, frame)
+                except OutOfSubset:
+                    pass
+                continue
         for sub in ast.walk(node):
             if isinstance(sub, ast.Subscript):
                 try:
